@@ -257,9 +257,9 @@ package syntax
 // sort.Sort on the range sorter: a permutation ordered by First (trusted library contract, specific to singleRangeSorter)
 //@ lib func sort.Sort(data []SingleRange)
 //@   modifies data[*]
-//@   ensures forall i int, j int :: 0 <= i && i < j && j < len(data) ==> data[i].First <= data[j].First
-//@   ensures forall i int :: 0 <= i && i < len(data) ==> exists j int :: 0 <= j && j < len(data) && data[i].First == old(data[j].First) && data[i].Last == old(data[j].Last)
-//@   ensures forall j int :: 0 <= j && j < len(data) ==> exists i int :: 0 <= i && i < len(data) && data[i].First == old(data[j].First) && data[i].Last == old(data[j].Last)
+//@   ensures forall i int, j int {mark(i), mark(j)} :: 0 <= i && i < j && j < len(data) ==> data[i].First <= data[j].First
+//@   ensures forall i int {mark(i)} :: 0 <= i && i < len(data) ==> exists j int :: 0 <= j && j < len(data) && data[i].First == old(data[j].First) && data[i].Last == old(data[j].Last)
+//@   ensures forall j int {mark(j)} :: 0 <= j && j < len(data) ==> exists i int :: 0 <= i && i < len(data) && data[i].First == old(data[j].First) && data[i].Last == old(data[j].Last)
 
 // A class that canonicalize turned into "everything but one range" is marked inverted; its sense for the parser is
 // still positive. ParserNeg is the sense the parser chose ([^...]); the add* functions must keep it.
@@ -287,6 +287,7 @@ package syntax
 //@   ensures[sorted] RangesSorted(c.ranges) && RangesValid(c.ranges) && CatsKnown(c.categories) && c.sub == old(c.sub) && InvOK(*c)
 //@   ensures[sense]  ParserNeg(*c) == old(ParserNeg(*c))
 //@   loop 0:
+//@     isolated
 //@     invariant c != nil && c.ranges == old(c.ranges) && len(c.ranges) > 1 && 0 <= j && j < i && i <= len(c.ranges) && !done
 //@     invariant[prefix] PrefixSorted(c.ranges, j + 1) 
 //@     invariant[suffix] SuffixByFirst(c.ranges, i, c.ranges[j].First) && mark(i) && mark(j)
